@@ -49,6 +49,14 @@ def oracle(case: Any, orders: List[List[int]], dumps: List[Any]) -> Optional[Dic
             return {'what': ('documented objects differ' if not cyc else 'class hierarchy differs (project has an import cycle)')
                     + ' between two processing orders: ' + '; '.join(df[:3])[:700],
                     'orders': [orders[0], o], 'diffs': df[:20], 'cyclic': bool(cyc)}
+        # the same objects: then what a name means in the final state (expandName, resolveName, link_to, xref) must be the same
+        qs = case.get('queries') or []
+        if not cyc and qs and ref.get('answers') is not None and d.get('answers') is not None and ref['answers'] != d['answers']:
+            ad = [[q, a, b] for q, a, b in zip(qs, ref['answers'], d['answers']) if a != b]
+            return {'what': 'the documented objects are the same but name lookups in the final state (expandName, resolveName, link_to, '
+                            'xref, find_object) differ between two processing orders: '
+                            + '; '.join('%s in %s: %s / %s' % (q[1], q[0], a, b) for q, a, b in ad[:3])[:700],
+                    'orders': [orders[0], o], 'diffs': [], 'cyclic': False, 'answer_diffs': ad[:20]}
     if 'exc' in ref:
         return {'what': 'the run aborts: %s' % ref['exc'], 'orders': [orders[0], orders[0]], 'diffs': [], 'cyclic': bool(cyc)}
     return None
@@ -61,6 +69,27 @@ def final_key(case: Any, fn: List[str], rx: Dict[Tuple[int, str], Any], mi: int,
     return fn[r['R']] + '.' + r['n'] if r else fn[mi] + '.' + name
 
 
+def class_keys(case: Any, fn: List[str], rx: Dict[Tuple[int, str], Any], mi: int) -> List[Tuple[Any, str]]:
+    """(class statement, key under which that class is finally documented) for the classes of module mi.  A name defined
+    several times in a module: System.handleDuplicate renames each superseded definition to '<name> <k>' (k = 0 for the
+    first one, 1 for the next, ...) and leaves it in the module; only the last definition keeps the name (and is the one a
+    re-export moves)."""
+    stmts = case['mods'][mi]['stmts']
+    defs: Dict[str, List[int]] = {}
+    for i, st in enumerate(stmts):
+        if st[0] in ('class', 'def', 'var'):
+            defs.setdefault(st[1], []).append(i)
+    out = []
+    for i, st in enumerate(stmts):
+        if st[0] != 'class':
+            continue
+        occ = defs[st[1]]
+        j = occ.index(i)
+        key = final_key(case, fn, rx, mi, st[1]) if j == len(occ) - 1 else '%s.%s %d' % (fn[mi], st[1], j)
+        out.append((st, key))
+    return out
+
+
 def stale_reference_classes(case: Any) -> List[Tuple[str, int]]:
     """(final key of the class, base position) of classes whose base expression starts with a name that the module
     binds by `from D import x` / `from D import *` where (D, x) is re-exported by another module."""
@@ -68,15 +97,24 @@ def stale_reference_classes(case: Any) -> List[Tuple[str, int]]:
     rx = {(r['D'], r['x']): r for r in P.reexports(case)}
     out = []
     for mi, m in enumerate(case['mods']):
-        for st in m['stmts']:
-            if st[0] != 'class':
-                continue
+        for st, key in class_keys(case, fn, rx, mi):
             for pos, b in enumerate(st[3]):
                 how, ent = P.denote(case, fn, mi, b)
                 if how and ent and ent[0] == 'def' and (ent[1], ent[2]) in rx and rx[(ent[1], ent[2])]['R'] != mi:
                     if how in ('from:%d' % ent[1], 'star:%d' % ent[1]):
-                        out.append((final_key(case, fn, rx, mi, st[1]), pos))
+                        out.append((key, pos))       # incl. the renamed, superseded duplicate of such a class
     return out
+
+
+def stale_query(case: Any, fn: List[str], rx: Dict[Tuple[int, str], Any], scope: str, ident: str) -> bool:
+    """the first component of `ident`, looked up from `scope`, is a name that the module of the scope binds by
+    `from D import x` / `from D import *` where (D, x) is re-exported by another module"""
+    mi = P.module_of_scope(fn, scope)
+    if mi is None:
+        return False
+    how, ent = P.denote(case, fn, mi, ident.split('.')[0])
+    return bool(how and ent and ent[0] == 'def' and (ent[1], ent[2]) in rx and rx[(ent[1], ent[2])]['R'] != mi
+                and how in ('from:%d' % ent[1], 'star:%d' % ent[1]))
 
 
 def alias_assignment_classes(case: Any) -> List[Tuple[str, int]]:
@@ -87,11 +125,10 @@ def alias_assignment_classes(case: Any) -> List[Tuple[str, int]]:
     out = []
     for mi, m in enumerate(case['mods']):
         al = {st[1] for st in m['stmts'] if st[0] == 'alias' and '.' in st[2]}
-        for st in m['stmts']:
-            if st[0] == 'class':
-                for pos, b in enumerate(st[3]):
-                    if b.split('.')[0] in al:
-                        out.append((final_key(case, fn, rx, mi, st[1]), pos))
+        for st, key in class_keys(case, fn, rx, mi):
+            for pos, b in enumerate(st[3]):
+                if b.split('.')[0] in al:
+                    out.append((key, pos))
     return out
 
 
@@ -258,7 +295,8 @@ class Check(PropertyCheck):
                  'object imported from its defining module, bases of a moved class re-resolved in the re-exporter\'s scope, re-export / '
                  'star import inside an import cycle, `x = m.B` expanded at visit time. Tie: per-schedule diff of the model dump with the '
                  'real System on EVERY reachable schedule of generated projects; oracle: dumps of the real tool under two schedules '
-                 'are equal (with import cycles: the class hierarchy).'),
+                 'are equal (with import cycles: the class hierarchy) and, when they are, so are the name lookups in the final state '
+                 '(expandName / resolveName / link_to / xref / find_object answers).'),
         'note': ('Partial: the linearisation itself is C05\'s (a function of the resolved bases); the positive theorems carry "one '
                  'binding per name per scope" and "no re-export" (one re-export: C07_moved_once and the C07 reach theorems); star imports '
                  'and several re-exports per project are covered by correspondence + oracle only. Seven genuine order dependences of '
@@ -412,7 +450,8 @@ class Check(PropertyCheck):
         self.count('oracle_violations_' + ('cyclic' if v['cyclic'] else 'acyclic'))
         two = [im[orders.index(v['orders'][0])], im[orders.index(v['orders'][1])]]
         return [Violation('oracle', v['what'], case={'case': c, 'orders': v['orders']},
-                          observed={'diffs': v['diffs'], 'dumps': [x.get('objects', x) for x in two]})]
+                          observed={'diffs': v['diffs'], 'dumps': [x.get('objects', x) for x in two],
+                                    'answer_diffs': v.get('answer_diffs')})]
 
     # ------------------------------------------------------------------ search / classify / replay
     def search(self, broken: List[Violation]) -> List[Violation]:
@@ -443,6 +482,16 @@ class Check(PropertyCheck):
         f = features(case)
         dumps = [{'objects': d} if 'exc' not in d else d for d in (v.observed or {}).get('dumps', [])]
         if len(dumps) != 2 or any('exc' in d for d in dumps):
+            return None
+        ad = (v.observed or {}).get('answer_diffs')
+        if ad:
+            # same objects, different name lookups: known only when EVERY differing lookup goes through a name imported
+            # from the defining module of a re-exported object (the alias then holds the old or the new name depending on
+            # whether the re-export had happened when the import was analysed)
+            fn = P.fullnames(case)
+            rx = {(r['D'], r['x']): r for r in P.reexports(case)}
+            if all(stale_query(case, fn, rx, q[0], q[1]) for q, _, _ in ad):
+                return by.get('C06-stale-defining-module-name')
             return None
         # (a) the stale name of a re-exported object: every class whose resolved bases differ refers to the object
         #     through an import from the defining module; nothing but bases/mro differs
@@ -499,4 +548,12 @@ class Check(PropertyCheck):
             return 1 if (df or v) else 0
         print('property requires: the same documented objects (with import cycles: the same class hierarchy) under both orders')
         print('property:', v['what'] if v else 'holds on this input')
+        if v:
+            known, _ = lib.load_known_findings('C06')
+            two = [im[orders.index(v['orders'][0])], im[orders.index(v['orders'][1])]]
+            k = self.classify_known(Violation('oracle', v['what'], case={'case': case, 'orders': v['orders']},
+                                              observed={'diffs': v['diffs'], 'dumps': [x.get('objects', x) for x in two],
+                                                        'answer_diffs': v.get('answer_diffs')}), known)
+            if k:
+                print('this is the listed known finding %s (a defect of the unchanged tree, not of a change under test)' % k['id'])
         return 1 if v else 0
